@@ -31,7 +31,11 @@ def run(rep, tier, wd):
                  if obs[p - 1]["exp"]["out"] != "unspec" and obs[q - 1]["exp"]["out"] != "unspec"]
         walk = S.euler_walk(pairs)
         plan = [(j, "single") for j in order] + [(j, "pair") for j in walk]
-        walks.append({"decl": S.decl_steps(st["ctor"], st["k"]), "steps": [S.render_ob(obs[j]["ob"]) for j, _ in plan]})
+        # single observations as written; in the pair walk of every other state the integer arguments are
+        # held in big representation and membership probes are equal numbers of another level
+        alt = "bigrep" if len(walks) % 2 == 1 else "lit"
+        walks.append({"decl": S.decl_steps(st["ctor"], st["k"]),
+                      "steps": [S.render_ob(obs[j]["ob"], how=("lit" if kind == "single" else alt)) for j, kind in plan]})
         plans.append(plan)
     results, declres = S.run_walks(walks, timeout_ms=10000)
     n_eval = 0
